@@ -81,6 +81,36 @@ func (m Metrics) Sum(name string, labelPairs ...string) float64 {
 	return total
 }
 
+// Has reports whether a series of the family with all given label pairs exists (whatever its value).
+func (m Metrics) Has(name string, labelPairs ...string) bool {
+	for k := range m {
+		if !strings.HasPrefix(k, name+"{") {
+			continue
+		}
+		parts := splitLabels(k[len(name)+1 : len(k)-1])
+		ok := true
+		for _, lp := range labelPairs {
+			i := strings.IndexByte(lp, '=')
+			want := lp[:i] + "=" + strconvQuote(lp[i+1:])
+			found := false
+			for _, part := range parts {
+				if part == want {
+					found = true
+					break
+				}
+			}
+			if !found {
+				ok = false
+				break
+			}
+		}
+		if ok {
+			return true
+		}
+	}
+	return false
+}
+
 // splitLabels splits `a="x",b="y,z"` at top-level commas.
 func splitLabels(s string) []string {
 	var parts []string
